@@ -34,6 +34,19 @@ structure Spec where
 /-- stsc: `sample_description_index` 0 is rejected -/
 def noZeroSdi (t : Trace) : Bool := t.all fun e => !(e.1 == "sdi" && e.2 == Val.n 0)
 
+def cstr (name : String) : Syn := .fld name .cstr
+
+/-- leva: the low 7 bits of the padding/assignment byte of the level being decoded (the byte itself is kept whole) -/
+def assignmentType (t : Trace) : Nat := t.nat "padding_assignment_type" % 128
+
+/-- dac3 (`decodeDac3FromData`): 3..258 payload bytes, all but the last three are zero; the last three carry
+    fscod(2) bsid(5) bsmod(3) acmod(3) lfeon(1) bit_rate_code(5) reserved(5), every bit of which the decoder keeps and the
+    encoder writes back, after `len - 3` zero bytes -/
+def dac3OK (t : Trace) : Bool :=
+  match t with
+  | [(_, .b bs)] => decide (3 ≤ bs.length) && decide (bs.length ≤ 258) && (bs.take (bs.length - 3)).all (· == 0)
+  | _ => false
+
 def table (entry : List Syn) : List Syn := [u "count" 4, .rep (fun t => t.nat "count") entry]
 
 def specs : List (String × Spec) := [
@@ -117,7 +130,58 @@ def specs : List (String × Spec) := [
   ("SmDm", { layout := full ++ [u "rx" 2, u "ry" 2, u "gx" 2, u "gy" 2, u "bx" 2, u "by" 2, u "wx" 2, u "wy" 2,
       u "luminance_max" 4, u "luminance_min" 4], strict := true }),
   ("sbgp", { layout := full ++ [raw "grouping_type" 4, .cond (fun t => ver t = 1) [u "grouping_type_parameter" 4],
-      u "count" 4, .rep (fun t => t.nat "count") [u "sample_count" 4, u "group_description_index" 4]], strict := true })
+      u "count" 4, .rep (fun t => t.nat "count") [u "sample_count" 4, u "group_description_index" 4]], strict := true }),
+  -- ---- second batch (mp4/schm.go kind.go mime.go emsg.go leva.go subs.go wvtt.go eventmessage.go av1c.go vppc.go cdat.go
+  --      unknown.go dac3.go).  Notes:
+  --  * zero-terminated strings: `ReadZeroTerminatedString(maxLen)` with the maxLen values the decoders pass accepts exactly
+  --    when `cstr` followed by the remaining fields does (kind, emsg, emib, schm); bytes after the last field are dropped.
+  --  * mime: >= 5 payload bytes; a final 0 is stripped and written back, anything else is kept: the content bytes are
+  --    reproduced as they are (first content byte mandatory).
+  --  * emsg: the message length is computed from the box size assuming an 8-byte header, so a large-size header is rejected
+  --    (`strict`; the layout itself always consumes the whole payload).
+  --  * vpcC: `hdr.Size == expectedSize(codecInitSize)`; the packed byte (bit depth 4, chroma subsampling 3, full range 1)
+  --    is split and re-joined without loss, so it is one 8-bit field here.  av1C likewise: bytes 1 and 2 are kept whole.
+  --  * vtte: the decoder ignores the payload (encoder writes the bare header); emeb: size must be 8.
+  ("schm", { layout := full ++ [raw "scheme_type" 4, u "scheme_version" 4, .cond (hasFlag 0x01) [cstr "scheme_uri"]] }),
+  ("kind", { layout := full ++ [cstr "scheme_uri", cstr "value"] }),
+  ("mime", { layout := full ++ [raw "content_type_first" 1, .fld "content_type_tail" .rest] }),
+  ("emsg", { layout := full ++ [
+      .cond (fun t => ver t = 1) [u "timescale" 4, u "presentation_time" 8, u "event_duration" 4, u "id" 4,
+        cstr "scheme_id_uri", cstr "value"],
+      .cond (fun t => ver t = 0) [cstr "scheme_id_uri", cstr "value",
+        u "timescale" 4, u "presentation_time_delta" 4, u "event_duration" 4, u "id" 4],
+      .fld "message_data" .rest], strict := true, valid := fun t => ver t ≤ 1 }),
+  ("leva", { layout := full ++ [u "level_count" 1, .rep (fun t => t.nat "level_count") [
+      u "track_id" 4, u "padding_assignment_type" 1,
+      .cond (fun t => assignmentType t = 0) [u "grouping_type" 4],
+      .cond (fun t => assignmentType t = 1) [u "grouping_type" 4, u "grouping_type_parameter" 4],
+      .cond (fun t => assignmentType t = 4) [u "sub_track_id" 4]]] }),
+  ("subs", { layout := full ++ [u "entry_count" 4, .rep (fun t => t.nat "entry_count") [
+      u "sample_delta" 4, u "subsample_count" 2, .rep (fun t => t.nat "subsample_count") [
+        .cond (fun t => ver t = 1) [u "subsample_size" 4], .cond (fun t => ver t ≠ 1) [u "subsample_size" 2],
+        u "subsample_priority" 1, u "discardable" 1, u "codec_specific_parameters" 4]]] }),
+  ("payl", { layout := [.fld "cue_text" .rest] }),
+  ("sttg", { layout := [.fld "settings" .rest] }),
+  ("iden", { layout := [.fld "cue_id" .rest] }),
+  ("ctim", { layout := [.fld "cue_current_time" .rest] }),
+  ("vlab", { layout := [.fld "source_label" .rest] }),
+  ("vttC", { layout := [.fld "config" .rest] }),
+  ("vtta", { layout := [.fld "cue_additional_text" .rest] }),
+  ("vsid", { layout := [u "source_id" 4] }),
+  ("vtte", { layout := [] }),
+  ("emib", { layout := full ++ [zeros 4, u "presentation_time_delta" 8, u "event_duration" 4, u "id" 4,
+      cstr "scheme_id_uri", cstr "value", .fld "message_data" .rest] }),
+  ("emeb", { layout := [], strict := true }),
+  ("av1C", { layout := [u "marker_version" 1, u "seq_profile_level_idx_0" 1, u "tier_bitdepth_mono_subsampling" 1,
+      u "initial_presentation_delay" 1, .fld "config_obus" .rest],
+             valid := fun t => t.nat "marker_version" = 0x81 ∧
+        (t.nat "initial_presentation_delay" = 0 ∨ (0x10 ≤ t.nat "initial_presentation_delay" ∧ t.nat "initial_presentation_delay" ≤ 0x1f)) }),
+  ("vpcC", { layout := full ++ [u "profile" 1, u "level" 1, u "bitdepth_subsampling_fullrange" 1, u "colour_primaries" 1,
+      u "transfer_characteristics" 1, u "matrix_coefficients" 1, u "codec_init_size" 2,
+      .fld "codec_init_data" (.rawdyn fun t => t.nat "codec_init_size")], strict := true, valid := fun t => ver t = 1 }),
+  ("cdat", { layout := [.fld "data" .rest] }),
+  ("iods", { layout := [.fld "data" .rest] }),
+  ("dac3", { layout := [.fld "initial_zeroes_and_bits" .rest], valid := dac3OK })
 ]
 
 def specOf (ty : String) : Option Spec := (specs.find? (·.1 == ty)).map (·.2)
